@@ -45,7 +45,8 @@ site('decl.c', 'addmember', 'error', "bit-field '%s' with zero width must not ha
 site('decl.c', 'addmember', 'error', "specified alignment of struct member '%s' is less strict than is required by type",
      T('decl', 'struct s_ { _Alignas(1) int m_; };', "'m_'"))
 site('decl.c', 'addmember', 'error', "struct has member '%s' after flexible array member",
-     T('decl', 'struct s_ { int n; int a[]; int m_; };', "'m_'"))
+     T('decl', 'struct s_ { int n; int a[]; int m_; };', "'m_'"),
+     T('decl', 'struct s_ { unsigned n; unsigned char a[]; unsigned : 4; };'), T('decl', 'struct s_ { int n; int a[]; int : 0; };'), T('decl', 'struct s_ { int n; int a[]; int b_ : 3; };', "'b_'"))
 site('decl.c', 'addmember', 'error', "struct member '%s' contains flexible array member",
      T('decl', 'struct s_ { int k; struct f_ m_; };', "'m_'", pre='struct f_ { int n; int a[]; };'))
 site('decl.c', 'addmember', 'error', "struct member '%s' has function type",
@@ -127,7 +128,9 @@ site('decl.c', 'declarator', 'error', 'array element has function type',
 site('decl.c', 'declarator', 'error', 'array element has incomplete type',
      T('decl', 'extern struct u_ a_[2];'),
      T('decl', 'extern void a_[2];'),
-     T('decl', 'extern int a_[2][];'))
+     T('decl', 'extern int a_[2][];'),
+     # arrays of unknown length need a complete element type too
+     T('decl', 'extern struct u_ a_[];'), T('decl', 'extern void a_[];'), T('decl', 'extern int a_[][];'), T('fdecl', 'int f_(int a_[][]);'), T('fdecl', 'void f_(struct u_ p_[]);'))
 site('decl.c', 'declarator', 'error', 'array length is too large',
      T('decl', 'extern int a_[0x7fffffffffffffff];'),
      T('decl', 'extern char a_[2][0xffffffffffffffff];'))
